@@ -190,6 +190,20 @@ def make_trace(ctx, tid, case, net, k):
     m = re.search(r"A_Table\[NSPECIES\]\s*=\s*\{(.*?)\}", et, re.S)
     tab = [x.strip()[2:] for x in m.group(1).split(",") if x.strip()]
     ev.append({"act": "EmitView", "kind": "enzo", "ids": [chars(a) for a in tab], "slots": list(range(len(tab))), "n": len(tab), "has_elems": False})
+    # the patch for the twin network in which the electron is spelled "e-" (the spelling Enzo itself predefines)
+    spelled = {x for r, p in case["reactions"] for x in r + p if x in ELECTRON} | {x for x in case["required"] if x in ELECTRON}
+    if spelled and spelled != {"e-"} and not case.get("upper"):
+        def patch_facts(n2, where):
+            with quiet():
+                patch_factory("enzo", "cpu", None).render(n2, templates=["naunet_enzo.h.j2", "typedefs.h.j2"], path=where)
+            h = creader.strip_comments((where / "naunet_enzo.h").read_text())
+            m2 = re.search(r"#define\s+ENZO_NSPECIES\s+(\S+)", h)
+            return (m2.group(1) if m2 else "?"), creader.strip_comments((where / "typedefs.h").read_text())
+        respell = lambda lst: ["e-" if x in ELECTRON else x for x in lst]
+        twin_case = dict(case, reactions=[(respell(r), respell(p)) for r, p in case["reactions"]], required=respell(case["required"]))
+        a_cnt, a_txt = patch_facts(net, ctx.scratch / "p" / f"{k}_own")
+        b_cnt, b_txt = patch_facts(build(twin_case), ctx.scratch / "p" / f"{k}_twin")
+        ev.append({"act": "PatchTwin", "same_count": a_cnt == b_cnt, "same_fields": a_txt == b_txt, "counts": [a_cnt, b_cnt], "spellings": sorted(spelled)})
     return {"tid": tid, "species": species, "ev": ev, "case": case}
 
 
